@@ -243,9 +243,15 @@ def inner_forwarding_contract(which):
         I.contracts[f"{P}:property_from_data"] = pfd
         roots = GrowSet("roots")
         item = SOpaque("items", cls=oai.Schema)
+        shape = {}
         if which == "ListProperty":
-            data = SOpaque("data", cls=oai.Schema, attrs={"items": item, "prefixItems": SList(), "default": None, "description": None,
-                                                           "example": None})
+            # items only / prefixItems only / both (then the element type is the union of all of them)
+            pre = [SOpaque(f"prefix{j}", cls=oai.Schema) for j in range(I.choose(3))]
+            has_items = True if not pre else bool(I.branch_free())
+            shape["pre"], shape["items"] = pre, item if has_items else None
+            shape["prelist"] = SList(list(pre))
+            data = SOpaque("data", cls=oai.Schema, attrs={"items": item if has_items else None, "prefixItems": shape["prelist"],
+                                                           "default": None, "description": None, "example": None})
         else:
             data = SOpaque("data", cls=oai.Schema, attrs={"type": None, "anyOf": SList([item]), "oneOf": SList([SOpaque("m2", cls=oai.Schema)]),
                                                            "default": None, "description": None, "example": None})
@@ -254,7 +260,36 @@ def inner_forwarding_contract(which):
                   config=SOpaque("config", attrs={"field_prefix": SStr(z3.Const("fp", z3.StringSort()))}), roots=roots)
         if which == "ListProperty":
             kw["process_properties"] = SBool(z3.Const("process_properties", z3.BoolSort()))
-        return SFunc("pyfunc", cls.build.__func__, self_val=cls), [], kw, {"calls": calls, "roots": roots}
+        return SFunc("pyfunc", cls.build.__func__, self_val=cls), [], kw, {"calls": calls, "roots": roots, "shape": shape, "data": data,
+                                                                            "item": item}
+
+    def members(ctx):
+        """ListProperty: the element schema handed on is the one schema given, or anyOf of ALL of them in order; the document's
+        own schema object is not edited.  UnionProperty: one inner build per member, in order, until the first failure."""
+        i = ctx.inputs
+        calls = i["calls"]
+        if which == "ListProperty":
+            sh = i["shape"]
+            want = list(sh["pre"]) + ([sh["items"]] if sh["items"] is not None else [])
+            # frame: parsing does not change the document
+            if i["data"].attrs["prefixItems"] is not sh["prelist"] or list(sh["prelist"].items) != list(sh["pre"]) \
+                    or i["data"].attrs["items"] is not sh["items"]:
+                return False
+            if len(calls) != 1:
+                return False
+            d = calls[0][1].get("data")
+            if len(want) == 1:
+                return d is want[0]
+            got = d.fields.get("anyOf") if isinstance(d, SObj) else getattr(d, "attrs", {}).get("anyOf")
+            return isinstance(got, SList) and len(got.items) == len(want) and all(a is b for a, b in zip(got.items, want))
+        want = [i["item"]] + [m for m in i["data"].attrs["oneOf"].items]
+        datas = [kw.get("data") for _, kw, _ in calls]
+        if len(datas) > len(want) or any(a is not b for a, b in zip(datas, want)):
+            return False
+        if len(datas) < len(want):
+            # stopped early: only after a member failed
+            return isinstance(ctx.value, STuple) and isinstance(ctx.value.items[0], SObj) and ctx.value.items[0].cls.__name__ == "PropertyError"
+        return True
 
     def forwarded(ctx):
         calls = ctx.inputs["calls"]
@@ -263,7 +298,13 @@ def inner_forwarding_contract(which):
         return all(kw.get("roots") is ctx.inputs["roots"] for _, kw, _ in calls)
     cl = Clause("inner-roots-forwarded", forwarded, any_outcome=True,
                 statement=f"every inner property_from_data call of {which}.build receives the caller's roots", props=["C01", "C08"])
-    return FnContract(f"{P}.{modname}:{which}.build", [Case("generic", make, [cl], raises=(Exception,), props=["C01", "C08"])])
+    cl2 = Clause("every-member-schema-built-once-and-document-unchanged", members,
+                 statement=("the element schema is the single item schema or anyOf(prefixItems + [items]) with every one of them, in "
+                            "order; the schema object of the document (its prefixItems list) is left as it was") if which == "ListProperty"
+                 else "every member of anyOf + oneOf is built exactly once, in order (none dropped or merged before it is resolved)",
+                 props=["C17", "C20", "C12", "C07"])
+    return FnContract(f"{P}.{modname}:{which}.build", [Case("generic", make, [cl, cl2], raises=(Exception,),
+                                                            props=["C01", "C08", "C17", "C20", "C12", "C07"])])
 
 
 def discharge(rep, kf, prop, tier, seed):
@@ -282,7 +323,7 @@ def discharge(rep, kf, prop, tier, seed):
         r = core.Report(prop, tier, seed)
         engine_b.discharge(r, kf, [inner_forwarding_contract("ListProperty"), inner_forwarding_contract("UnionProperty")], prop, tier, seed)
         return r
-    if prop in ("C01", "C08"):
+    if prop in ("C01", "C08", "C17", "C20", "C12", "C07"):
         tasks.append(inner)
     for r in core.run_parallel(tasks):
         r.obligations = [o for o in r.obligations if prop in o.props or o.id.endswith("no-exception-escapes")]
